@@ -111,6 +111,9 @@ pub fn dispatch(t: &[&str]) -> String {
         "seqw" => seqw(t),
         // hevc <chunk_size> <hex>: hevc_parser's view of a stream: NALs with frame indices, ordered frames
         "hevc" => hevc_view(t),
+        // hsplit <chunk_size> <hex> [file]: the byte-level NAL batches hevc_parser hands over (parse_nals off):
+        // through a cursor, or (`file`) through process_file and its BufReader
+        "hsplit" => hevc_split(t),
         // rpufile <chunk_size> <hex>: write the bytes to a temp file and read it with parse_rpu_file
         "rpufile" => {
             let cs = t[1];
@@ -311,6 +314,48 @@ impl hevc_parser::io::IoProcessor for Collect {
             self.frames.push(format!("{}:{}:{}", f.decoded_number, f.presentation_number, f.frame_type));
         }
         Ok(())
+    }
+}
+
+struct Batches {
+    input: std::path::PathBuf,
+    batches: Vec<Vec<String>>,
+}
+
+impl hevc_parser::io::IoProcessor for Batches {
+    fn input(&self) -> &std::path::PathBuf {
+        &self.input
+    }
+    fn update_progress(&mut self, _delta: u64) {}
+    fn process_nals(&mut self, _parser: &hevc_parser::HevcParser, nals: &[hevc_parser::hevc::NALUnit], chunk: &[u8]) -> anyhow::Result<()> {
+        self.batches.push(nals.iter().map(|n| if n.end > n.start { hex(&chunk[n.start..n.end]) } else { ".".to_string() }).collect());
+        Ok(())
+    }
+    fn finalize(&mut self, _parser: &hevc_parser::HevcParser) -> anyhow::Result<()> {
+        Ok(())
+    }
+}
+
+fn hevc_split(t: &[&str]) -> String {
+    use hevc_parser::io::{processor::{HevcProcessor, HevcProcessorOpts}, IoFormat};
+    let cs: usize = t[1].parse().unwrap();
+    let data = unhex(t[2]);
+    let mut c = Batches { input: std::path::PathBuf::new(), batches: Vec::new() };
+    let opts = HevcProcessorOpts { parse_nals: false, ..Default::default() };
+    let mut p = HevcProcessor::new(IoFormat::Raw, opts, cs);
+    let r = if t.len() > 3 && t[3] == "file" {
+        let path = std::env::temp_dir().join(format!("dvh_hsplit_{}.hevc", std::process::id()));
+        std::fs::write(&path, &data).unwrap();
+        let r = p.process_file(&mut c, Some(path.clone()));
+        let _ = std::fs::remove_file(&path);
+        r
+    } else {
+        let mut rd = std::io::Cursor::new(data);
+        p.process_io(&mut rd, &mut c)
+    };
+    match r {
+        Ok(()) => format!("ok {}", if c.batches.is_empty() { "-".to_string() } else { c.batches.iter().map(|b| if b.is_empty() { "-".to_string() } else { b.join(",") }).collect::<Vec<_>>().join("|") }),
+        Err(e) => format!("err {}", e.to_string().replace(char::is_whitespace, "_")),
     }
 }
 
